@@ -1258,3 +1258,90 @@ Proof.
   unfold is_kind_name, is_stanza_name. intro H. apply andb_true_iff in H. destruct H as [H1 H2].
   rewrite H2, andb_true_r. apply bytes_eqb_eq in H1. rewrite H1. destruct k; reflexivity.
 Qed.
+
+(* --------------------------- the id handling of SendIQ / SendMessage / SendPresence *)
+
+Lemma get_id_typ_spec : forall a i idx id td j v,
+  get_id_typ a i idx id td = (Some j, v) ->
+  (idx = Some j /\ v = id) \/
+  ((i <= j)%nat /\ exists x, nth_error a (j - i) = Some x /\ plain_is s_id x = true /\ aval x = v).
+Proof.
+  induction a as [|x r IH]; intros i idx id td j v H; cbn [get_id_typ] in H.
+  - left. injection H as -> ->. split; reflexivity.
+  - destruct (plain_is s_id x) eqn:Eid.
+    + (* x is the id: whatever happens next, the answer is x or something later *)
+      assert (Hx : (i <= i)%nat /\ exists y, nth_error (x :: r) (i - i) = Some y /\ plain_is s_id y = true /\ aval y = aval x).
+      { split; [lia|]. exists x. rewrite Nat.sub_diag. split; [reflexivity|split; [exact Eid|reflexivity]]. }
+      destruct (td || (negb true && plain_is s_type x)) eqn:Etd.
+      * injection H as <- <-. right. exact Hx.
+      * apply IH in H. destruct H as [[Hj Hv]|[Hle [y [Hn [Hy Hv]]]]].
+        -- injection Hj as <-. subst v. right. exact Hx.
+        -- right. split; [lia|]. exists y. split; [|split; assumption].
+           replace (j - i)%nat with (S (j - S i)) by lia. exact Hn.
+    + destruct idx as [k|].
+      * destruct (td || (negb false && plain_is s_type x)) eqn:Etd.
+        -- injection H as <- <-. left. split; reflexivity.
+        -- apply IH in H. destruct H as [[Hj Hv]|[Hle [y [Hn [Hy Hv]]]]].
+           ++ left. split; assumption.
+           ++ right. split; [lia|]. exists y. split; [|split; assumption].
+              replace (j - i)%nat with (S (j - S i)) by lia. exact Hn.
+      * assert (H' : get_id_typ r (S i) None id (td || (negb false && plain_is s_type x)) = (Some j, v)).
+        { destruct (td || (negb false && plain_is s_type x)); exact H. }
+        apply IH in H'. destruct H' as [[Hj _]|[Hle [y [Hn [Hy Hv]]]]]; [discriminate|].
+        right. split; [lia|]. exists y. split; [|split; assumption].
+        replace (j - i)%nat with (S (j - S i)) by lia. exact Hn.
+Qed.
+
+Lemma filter_set_val (P : attr -> bool) : forall a j v x,
+  (forall y w, P (mkattr (aname y) w) = P y) ->
+  nth_error a j = Some x -> P x = false ->
+  filter P (set_val a j v) = filter P a.
+Proof.
+  induction a as [|y r IH]; intros j v x HP Hn Hx; [reflexivity|].
+  destruct j as [|j]; cbn [set_val filter].
+  - cbn [nth_error] in Hn. injection Hn as ->. rewrite HP, Hx. reflexivity.
+  - cbn [nth_error] in Hn. rewrite (IH j v x HP Hn Hx). reflexivity.
+Qed.
+
+Lemma existsb_set_val (P : attr -> bool) : forall a j v x,
+  nth_error a j = Some x -> P (mkattr (aname x) v) = true -> existsb P (set_val a j v) = true.
+Proof.
+  induction a as [|y r IH]; intros j v x Hn Hx; [destruct j; discriminate|].
+  destruct j as [|j]; cbn [set_val existsb nth_error] in *.
+  - injection Hn as ->. rewrite Hx. reflexivity.
+  - rewrite (IH j v x Hn Hx). apply orb_true_r.
+Qed.
+
+Lemma plain_is_name l y w : plain_is l (mkattr (aname y) w) = plain_is l y.
+Proof. reflexivity. Qed.
+
+(* SendIQ / SendMessage / SendPresence touch nothing but the unqualified id:
+   every other attribute stays, in order ... *)
+Lemma fill_id_others a newid :
+  filter (fun x => negb (plain_is s_id x)) (fill_id a newid) = filter (fun x => negb (plain_is s_id x)) a.
+Proof.
+  unfold fill_id. destruct (get_id_typ a 0 None [] false) as [[j|] v] eqn:E.
+  - destruct (is_empty v); [|reflexivity].
+    apply get_id_typ_spec in E. destruct E as [[H _]|[_ [x [Hn [Hx _]]]]]; [discriminate|].
+    rewrite Nat.sub_0_r in Hn.
+    apply (filter_set_val _ a j newid x); [intros y w; rewrite plain_is_name; reflexivity|exact Hn|].
+    rewrite Hx. reflexivity.
+  - rewrite filter_app. cbn [filter id_attr]. unfold plain_is. cbn [aname nspace nlocal is_empty andb].
+    rewrite bytes_eqb_refl. cbn [negb]. apply app_nil_r.
+Qed.
+
+(* ... and afterwards the stanza has a non-empty unqualified id *)
+Lemma fill_id_has_id a newid : newid <> [] -> has_nonempty s_id (fill_id a newid) = true.
+Proof.
+  intro Hne. assert (Hn' : is_empty newid = false) by (destruct newid; [congruence|reflexivity]).
+  unfold fill_id. destruct (get_id_typ a 0 None [] false) as [[j|] v] eqn:E.
+  - apply get_id_typ_spec in E. destruct E as [[H _]|[_ [x [Hn [Hx Hv]]]]]; [discriminate|].
+    rewrite Nat.sub_0_r in Hn. destruct (is_empty v) eqn:Ev.
+    + unfold has_nonempty. apply (existsb_set_val _ a j newid x Hn).
+      rewrite plain_is_name, Hx. cbn [aval]. rewrite Hn'. reflexivity.
+    + unfold has_nonempty. apply existsb_exists. exists x. split; [eapply nth_error_In; exact Hn|].
+      rewrite Hx, Hv, Ev. reflexivity.
+  - rewrite has_nonempty_app. apply orb_true_iff. right.
+    unfold has_nonempty, id_attr, plain_is. cbn [existsb aname nspace nlocal aval is_empty andb].
+    rewrite bytes_eqb_refl, Hn'. reflexivity.
+Qed.
